@@ -44,3 +44,299 @@ def pct_heavy(rng, n=None):
         else:
             out.append(rng.choice(SPECIAL_BYTES) if rng.random() < 0.5 else rng.randrange(0x61, 0x7b))
     return bytes(out)
+
+
+# ----------------------------------------------------------------------------- URL grammar generator
+SPECIAL = [b"http", b"https", b"ws", b"wss", b"ftp"]
+NONSPECIAL = [b"a", b"sc", b"git+ssh", b"blob", b"mailto", b"javascript", b"data", b"foo.bar", b"x-1"]
+UNI = ["é", "ß", "ü", "日本", "faß", "ǆ", "İ", "ａ", "。", "☃", "\u200d", "\u00ad", "א", "ا", "e\u0301", "\u0323", "𝒜", "€"]
+
+
+def case_mix(rng, b):
+    return bytes((c ^ 0x20) if (0x61 <= c <= 0x7a and rng.random() < 0.3) else c for c in b)
+
+
+def gen_label(rng, n=None):
+    n = n if n is not None else rng.choice([1, 2, 3, 5, 8, 13, 14, 15, 16, 17, 30, 33])
+    al = b"abcdefghijklmnopqrstuvwxyz0123456789-"
+    s = bytes(rng.choice(al) for _ in range(n))
+    return s
+
+
+def gen_ipv4(rng):
+    k = rng.choice([1, 2, 3, 4, 4, 4, 5])
+    parts = []
+    for i in range(k):
+        v = rng.choice([0, 1, 7, 8, 9, 10, 99, 127, 255, 256, 65535, 65536, 16777215, 16777216, 4294967295, 4294967296,
+                        rng.randrange(256), rng.randrange(1 << 32)])
+        if i < k - 1 and rng.random() < 0.8:
+            v %= 256
+        f = rng.random()
+        if f < 0.6:
+            t = str(v)
+        elif f < 0.75:
+            t = "0x" + format(v, "x")
+        elif f < 0.8:
+            t = "0X" + format(v, "X")
+        elif f < 0.92:
+            t = "0" + format(v, "o")
+        elif f < 0.96:
+            t = "0" * rng.randrange(1, 4) + str(v)
+        else:
+            t = rng.choice(["", "0x", "08", "09", "1a", "0xg", "١"])
+        parts.append(t)
+    s = ".".join(parts)
+    if rng.random() < 0.15:
+        s += "."
+    if rng.random() < 0.05:
+        s += "."
+    return s.encode()
+
+
+def gen_ipv6(rng):
+    r = rng.random()
+    def piece():
+        v = rng.choice([0, 0, 0, 1, 0xffff, 0xabcd, rng.randrange(65536)])
+        t = format(v, "x")
+        if rng.random() < 0.2:
+            t = t.upper()
+        if rng.random() < 0.15:
+            t = t.rjust(4, "0")
+        return t
+    if r < 0.35:
+        ps = [piece() for _ in range(8)]
+        s = ":".join(ps)
+    elif r < 0.75:
+        n = rng.randrange(0, 8)
+        k = rng.randrange(0, n + 1)
+        s = ":".join(piece() for _ in range(k)) + "::" + ":".join(piece() for _ in range(n - k))
+    elif r < 0.9:
+        n = rng.randrange(0, 7)
+        k = rng.randrange(0, n + 1)
+        v4 = ".".join(str(rng.choice([0, 1, 9, 10, 255, 256, rng.randrange(256)])) for _ in range(rng.choice([4, 4, 4, 3, 5])))
+        if rng.random() < 0.5:
+            s = ":".join(piece() for _ in range(6)) + ":" + v4
+        else:
+            s = ":".join(piece() for _ in range(k)) + "::" + "".join(piece() + ":" for _ in range(n - k)) + v4
+    else:
+        s = rng.choice(["", ":", ":::", "1:2:3:4:5:6:7:8:9", "1::2::3", "12345::", "g::", "1:2:3:4:5:6:7", "::1.2.3", "::01.2.3.4",
+                        "1:2:3:4:5:6:7:1.2.3.4", "::1.2.3.4.5", "::.1.2.3", "1:", ":1", "::ffff:1.2.3.4", "0:0:0:0:0:0:0:0",
+                        "1:0:0:2:0:0:0:3", "1:0:0:0:2:0:0:3", "%31::"])
+    return b"[" + s.encode() + b"]"
+
+
+def gen_host(rng):
+    r = rng.random()
+    if r < 0.33:
+        k = rng.choice([1, 2, 2, 3, 4])
+        h = b".".join(gen_label(rng) for _ in range(k))
+        if rng.random() < 0.3:
+            h = case_mix(rng, h)
+        if rng.random() < 0.06:
+            h += b"."
+        return h
+    if r < 0.5:
+        return gen_ipv4(rng)
+    if r < 0.62:
+        return gen_ipv6(rng)
+    if r < 0.72:
+        return ".".join(rng.choice(UNI + ["a", "b1", "xn--nxasmq6b", "XN--A", "xn--", "xn--a-"]) for _ in range(rng.choice([1, 2, 3]))).encode()
+    if r < 0.80:
+        return rng.choice([b"xn--nxasmq6b.com", b"xn--a.b", b"a.xn--", b"XN--NXASMQ6B", b"xn--80ak6aa92e.com", b"xn--0.pt",
+                           b"localhost", b"LOCALHOST", b"%6c%6Fcalhost", b"%31%32%37.1", b"a%2Eb", b"%", b"%zz", b"a%00b",
+                           b"ex%61mple.com", b"EX%41MPLE.com", b"1.2.3.4.5", b"0x", b"0x.0x", b"1..2", b"a.1", b"a.0x1g", b"09"])
+    if r < 0.88:
+        base = bytearray(gen_label(rng, rng.randrange(1, 20)))
+        base.insert(rng.randrange(len(base) + 1), rng.choice(b" <>[]^|\\%@:#?/\x00\x7f\x80_~!$&'()*+,;=\"`{}"))
+        return bytes(base)
+    if r < 0.93:
+        return b""
+    return rbytes(rng, rng.randrange(1, 12))
+
+
+def gen_port(rng):
+    r = rng.random()
+    if r < 0.45:
+        return b""
+    return b":" + rng.choice([b"", b"0", b"80", b"443", b"21", b"8080", b"65535", b"65536", b"000080", b"00000000000000000443",
+                              b"99999", b"1a", b"-1", b"a", b" 80", b"8 0", str(rng.randrange(70000)).encode(),
+                              b"4294967377", b"18446744073709551696"])
+
+
+def gen_userinfo(rng):
+    r = rng.random()
+    if r < 0.6:
+        return b""
+    u = rbytes(rng, rng.randrange(0, 6), alphabet=b"abcUSER%41:@;=[]|^ /\\?#\x7f\xc3\xa9")
+    u = u.replace(b"/", b"").replace(b"?", b"").replace(b"#", b"").replace(b"\\", b"")
+    return u + b"@"
+
+
+SEGS = [b"", b".", b"..", b"%2e", b"%2E", b".%2e", b"%2e.", b"%2E%2e", b"%2e%2E", b"...", b"a", b"b c", b"C:", b"c|", b"C|x",
+        b"%41", b"%", b"%zz", b"~", b"a;b", b"\xc3\xa9", b"{x}", b"a^b", b"`", b"\"", b"<>", b"x\\y", b"\\", b"..\\", b"'",
+        b"abcdefghijklmnop", b"0123456789abcde", b"0123456789abcdefg", b".a", b"a.", b"%2", b"%2ea", b"\x7f", b" ", b"\t", b"a\nb"]
+
+
+def gen_path(rng):
+    r = rng.random()
+    if r < 0.12:
+        return b""
+    n = rng.choice([1, 1, 2, 2, 3, 4, 6])
+    sep = b"/"
+    out = b""
+    for i in range(n):
+        s = rng.choice(SEGS) if rng.random() < 0.8 else rbytes(rng, rng.randrange(0, 20)).replace(b"?", b"").replace(b"#", b"")
+        out += (b"\\" if rng.random() < 0.1 else sep) + s
+    if rng.random() < 0.15:
+        out = out[1:]
+    if rng.random() < 0.1:
+        out = b"/" + out
+    return out
+
+
+def gen_query(rng):
+    r = rng.random()
+    if r < 0.55:
+        return b""
+    return b"?" + rbytes(rng, rng.randrange(0, 12), alphabet=b"abc=&'\"<> #?%41+\x7f\xc3\xa9`{}").replace(b"#", b"")
+
+
+def gen_fragment(rng):
+    r = rng.random()
+    if r < 0.65:
+        return b""
+    return b"#" + rbytes(rng, rng.randrange(0, 10), alphabet=b"abc`<> \"#?%{}\x7f\xc3\xa9")
+
+
+def pad(rng, s):
+    if rng.random() < 0.08:
+        s = rng.choice([b" ", b"\t", b"\n", b"\x00", b"\x1f ", b"  "]) + s
+    if rng.random() < 0.08:
+        s = s + rng.choice([b" ", b"\t", b"\n", b"\x00", b" \x1f", b"  "])
+    if rng.random() < 0.08 and s:
+        i = rng.randrange(len(s) + 1)
+        s = s[:i] + rng.choice([b"\t", b"\n", b"\r"]) + s[i:]
+    return s
+
+
+def gen_absolute(rng):
+    r = rng.random()
+    tail = lambda: gen_path(rng) + gen_query(rng) + gen_fragment(rng)
+    if r < 0.5:
+        sc = case_mix(rng, rng.choice(SPECIAL))
+        sl = rng.choice([b"//", b"//", b"//", b"//", b"/", b"", b"\\\\", b"///", b"/\\", b"////"])
+        return sc + b":" + sl + gen_userinfo(rng) + gen_host(rng) + gen_port(rng) + tail()
+    if r < 0.65:
+        sl = rng.choice([b"//", b"//", b"///", b"/", b"", b"\\\\", b"//C:", b"///C:/", b"/C|/", b"//localhost", b"//LOCALHOST/",
+                         b"//h", b"//h:80", b"//u@h"])
+        hostpart = gen_host(rng) if (sl == b"//" and rng.random() < 0.4) else b""
+        return case_mix(rng, b"file") + b":" + sl + hostpart + tail()
+    if r < 0.85:
+        sc = rng.choice(NONSPECIAL)
+        k = rng.random()
+        if k < 0.45:
+            return sc + b"://" + gen_userinfo(rng) + gen_host(rng) + gen_port(rng) + tail()
+        if k < 0.65:
+            return sc + b":" + gen_path(rng) + gen_query(rng) + gen_fragment(rng)
+        op = rbytes(rng, rng.randrange(0, 10), alphabet=b"abc d\x7f%41\xc3\xa9/:@")
+        if rng.random() < 0.3:
+            op += b" " * rng.randrange(1, 3)
+        return sc + b":" + op + gen_query(rng) + gen_fragment(rng)
+    if r < 0.9:
+        inner = gen_absolute(rng) if rng.random() < 0.7 else b"https://a.b:80/x"
+        return b"blob:" + inner
+    return rbytes(rng)
+
+
+def gen_reference(rng):
+    r = rng.random()
+    if r < 0.08:
+        return b""
+    if r < 0.16:
+        return gen_fragment(rng) or b"#"
+    if r < 0.26:
+        return (gen_query(rng) or b"?") + gen_fragment(rng)
+    if r < 0.45:
+        return gen_path(rng) + gen_query(rng) + gen_fragment(rng)
+    if r < 0.55:
+        return rng.choice([b"//", b"\\\\", b"/\\", b"\\/"]) + gen_userinfo(rng) + gen_host(rng) + gen_port(rng) + gen_path(rng) + gen_query(rng)
+    if r < 0.65:
+        return rng.choice([b"..", b"../", b"../..", b"./", b".", b"%2e%2e/x", b"../../../x", b"C:", b"C:/x", b"c|/", b"/C:/", b"/c|", b"\\C:\\x", b"//C:/"]) + gen_query(rng)
+    if r < 0.75:
+        sc = rng.choice(SPECIAL + [b"file", b"a"])
+        return case_mix(rng, sc) + b":" + rng.choice([b"", b"x", b"/x", b"..", b"//h/x", b"?q", b"#f", b"\\x"])
+    return gen_absolute(rng)
+
+
+def gen_pair(rng):
+    """(input, base|None)"""
+    r = rng.random()
+    if r < 0.45:
+        return pad(rng, gen_absolute(rng)), None
+    base = gen_absolute(rng)
+    return pad(rng, gen_reference(rng)), base
+
+
+SETTERS = ["set_href", "set_protocol", "set_username", "set_password", "set_host", "set_hostname", "set_port", "set_pathname",
+           "set_search", "set_hash"]
+
+
+def gen_value(rng, op):
+    r = rng.random()
+    if r < 0.07:
+        return b""
+    if r < 0.2:   # wrong-component value
+        op = rng.choice(SETTERS)
+    if op == "set_href":
+        return pad(rng, gen_absolute(rng))
+    if op == "set_protocol":
+        return rng.choice(SPECIAL + NONSPECIAL + [b"file", b"FILE", b"HtTp", b"https:", b"ws:extra", b"h ttp", b"1a", b"", b":", b"a\tb",
+                                                  b"http\n", b"wss://x"])
+    if op in ("set_username", "set_password"):
+        return rbytes(rng, rng.randrange(0, 8), alphabet=b"abcXYZ:@/;=%41 \x7f\xc3\xa9[]^|?#\t")
+    if op in ("set_host", "set_hostname"):
+        h = gen_host(rng)
+        if rng.random() < 0.35:
+            h += gen_port(rng) or b":81"
+        if rng.random() < 0.15:
+            h += rng.choice([b"/p", b"?q", b"#f", b"\\x", b"/"])
+        if rng.random() < 0.05:
+            h = b"u@" + h
+        return pad(rng, h) if rng.random() < 0.3 else h
+    if op == "set_port":
+        return rng.choice([b"0", b"80", b"443", b"21", b"8080", b"65535", b"65536", b"0080", b"80a", b"a80", b" 80", b"8\t0", b"-1",
+                           b"99999999999", b"", str(rng.randrange(70000)).encode(), b"80/", b"80?x", b"\n80"])
+    if op == "set_pathname":
+        p = gen_path(rng)
+        if rng.random() < 0.15:
+            p = b"//" + p
+        if rng.random() < 0.1:
+            p += rng.choice([b"?x", b"#y", b" "])
+        return p
+    if op == "set_search":
+        q = gen_query(rng)
+        return q[1:] if rng.random() < 0.5 else q
+    if op == "set_hash":
+        f = gen_fragment(rng)
+        return f[1:] if rng.random() < 0.5 else f
+    return rbytes(rng)
+
+
+def gen_history(rng, maxlen=6, clears=True):
+    n = rng.choice([1, 1, 2, 2, 3, 4, maxlen])
+    ops = []
+    for _ in range(n):
+        if clears and rng.random() < 0.08:
+            ops.append((rng.choice(["clear_port", "clear_search", "clear_hash"]), b""))
+            continue
+        op = rng.choice(SETTERS[1:]) if rng.random() < 0.93 else "set_href"
+        ops.append((op, gen_value(rng, op)))
+    return ops
+
+
+def is_utf8(b):
+    try:
+        b.decode("utf-8")
+        return True
+    except UnicodeDecodeError:
+        return False
